@@ -59,6 +59,9 @@ def main():
         report["repo_head"] = head
         os.makedirs(os.path.join(wt, "out", "x"), exist_ok=True)
         shutil.copy(demo, os.path.join(wt, "out", "x", "demo.py"))
+        helpers = [f for f in os.listdir(src) if f.endswith(".py") and f != "demo.py"]    # modules the demo imports
+        for f in helpers:
+            shutil.copy(os.path.join(src, f), os.path.join(wt, "out", "x", f))
         env = {k: v for k, v in os.environ.items() if k != "PYTHONPATH"}
         rc0, out0 = sh(["/venv/bin/python", "out/x/demo.py"], cwd=wt, env=env, timeout=600)
         report["demo_clean_exit"] = rc0
@@ -93,6 +96,8 @@ def main():
             os.makedirs(dst, exist_ok=True)
             shutil.copy(patch, os.path.join(dst, "patch.diff"))
             shutil.copy(demo, os.path.join(dst, "demo.py"))
+            for f in helpers:
+                shutil.copy(os.path.join(src, f), os.path.join(dst, f))
             meta = dict(meta)
             suite_line = "repo test-suite with the change -> %s (%s)" % (
                 "pass" if report.get("suite_passes_with_change") else "not run/fail", report.get("suite_tail"))
